@@ -487,6 +487,7 @@ def units(tier):
     gmp_inverse_units(U)
     small_element_inverse_units(U)
     gmp_element_inverse_units(U)
+    get_inverse_width_units(U)
     return U
 
 
@@ -1352,6 +1353,24 @@ __CPROVER_assigns(g_pmi_calls, g_pmi_arg, g_mul_calls, g_mul_a, g_mul_b)
                       replay=mk_replay_native(key), runs=[Run(backend="sat", timeout=300)],
                       harness=H("  long in_q = nondet_long(); element_ = nondet_long(); g_pmi_calls = 0; g_mul_calls = 0;", "get_partial_inverse(in_q);"),
                       desc=f"{cls}::get_partial_inverse(Q) (GMP): with g = gcd(element, Q): (0, 1) when g == Q; otherwise T = Q / g is returned and the value is the partial identity of T times invert(element, T)"))
+
+def get_inverse_width_units(U):
+    """_get_inverse of the three small multi-field headers: the extended-Euclid loop runs on working copies of its operands;
+    for every 32-bit modulus (products in [2^31, 2^32) are in the accepted domain) the copies must hold the operands' values."""
+    for key, hdr, within, sel in (
+            ("mfs_ops", "Multi_field_small_operators.h", None, MFSO + r"::_get_inverse\(Element element,\s*Characteristic mod\)"),
+            ("mfs_el", "Multi_field_small.h", None, r"static constexpr (?:long )?int _get_inverse\(Element element, const Element mod\)"),
+            ("mfs_sh", "Multi_field_small_shared.h", None, r"static constexpr (?:long )?int _get_inverse\(Element element, const Characteristic mod\)")):
+        G = "typedef unsigned int Element; typedef unsigned int Characteristic;\nlong g_M, g_A, g_x, g_y; unsigned nondet_uint(void);\n"
+        fn = Fn(F + hdr, sel, "ginv_prologue", """
+__CPROVER_ensures(g_M == (long)mod && g_A == (long)element && g_x == 1 && g_y == 0)
+__CPROVER_assigns(g_M, g_A, g_x, g_y)
+""", piece={"kind": "slice", "first": r"\w[\w ]* M = mod;", "last": r"x = 1;", "sig": "void ginv_prologue(Element element, Characteristic mod)",
+            "epilogue": "g_M = (long)M; g_A = (long)A; g_x = (long)x; g_y = (long)y;"},
+                canary=(r"A = element;", "A = element + 1;"))
+        U.append(Unit(f"{key}._get_inverse.operand_width", "C10", [fn], enforce="ginv_prologue", globals_=G, inputs=["in_e", "in_m"], replay=mk_replay_native(key),
+                      harness=H("  unsigned in_e = nondet_uint(), in_m = nondet_uint();", "ginv_prologue(in_e, in_m);"),
+                      desc=f"{hdr} _get_inverse, set-up of the extended Euclid loop: the working copies M and A hold the values of the modulus and of the element for EVERY 32-bit modulus - prime ranges whose product lies in [2^31, 2^32) are accepted, and an `int` copy would be negative there"))
 
 TRUSTED = [
     "vp/prelude.h: spec functions RES_U/ADDMOD/SUBMOD/MATHMOD64 and the R11 stand-ins (VP_SWAP_U, vp_gcd_u)",
